@@ -6,6 +6,7 @@ permutation without a cutting limit, prefix with randomisation off).
 Exploration: for states and queries of the C03 generator the unlimited response (M requests) is followed by every
 limit 1 .. M+1 under both settings of [placement]randomize_allocation_candidates (worker processes are dedicated to one
 setting) and several PRNG seeds; a handful of cases is repeated in fresh interpreters with different PYTHONHASHSEED."""
+from harness import ppool
 import hashlib
 import json
 import multiprocessing as mp
@@ -243,7 +244,7 @@ def run(chk):
     probes = []
     for randomize in (False, True):
         seeds = [chk.seed * 1000003 + i + (500000 if randomize else 0) for i in range(n_states)]
-        with ctx.Pool(procs, initializer=_init, initargs=(randomize,)) as pool:
+        with ppool.Pool(ctx, procs, initializer=_init, initargs=(randomize,)) as pool:
             for res in pool.imap_unordered(case, [(s, nq, randomize) for s in seeds], chunksize=2):
                 if 'error' in res:
                     errors.append(res['error'])
